@@ -125,6 +125,9 @@ def _build(n, specs, known_orf, orf_start):
             return None, None
         variants.append(v)
     variants.sort()
+    for v in variants:
+        # taken BEFORE graph construction, which may rewrite a record in place (end-inclusion form)
+        v.attrs['_ORIG'] = (v.id, v.location.start, v.location.end, v.alt)
     orf = FeatureLocation(start=orf_start, end=n - (n - orf_start) % 3) if known_orf else None
     seq = DNASeqRecordWithCoordinates(seq=Seq(TX[:n]), locations=[], orf=orf)
     g = ThreeFrameTVG(seq=seq, _id='T1', has_known_orf=known_orf, max_adjacent_as_mnv=2)
@@ -133,20 +136,19 @@ def _build(n, specs, known_orf, orf_start):
     return g, variants
 
 
-def _check(n, specs, mode, adjacent_mode=0):
+def _check(n, specs, mode, adjacent_mode=0, start_anchored=False):
     """mode 0: completeness (C01), 1: soundness (C02); non-coding transcript: all frames active"""
     g, variants = _build(n, specs, False, 0)
     if g is None:
         return SKIP
-    # variants the graph is obliged to consider: start >= 3 (nothing is applied to the first 3 nt)
+    # variants the graph is obliged to consider: start >= 3 (nothing is applied to the first 3 nt), or an
+    # indel anchored on nucleotide 2 (it changes nothing before position 3; the code re-anchors it)
     usable = []
     for v in variants:
-        s, e = v.location.start, v.location.end
-        if s < 3:
-            # an indel anchored on the base before position 3 is moved to end-inclusion by the code;
-            # such geometries are outside this harness
+        vid, s, e, alt = v.attrs['_ORIG']
+        if s < 3 and not (start_anchored and s == 2 and len(variants) == 1 and specs[0][0] != 0):
             return SKIP
-        usable.append((v.id, s, e, v.alt))
+        usable.append((vid, s, e, alt))
     paths = _paths(g)
     kinds = {f'V{k}': spec[0] for k, spec in enumerate(specs)}
     ids = [u[0] for u in usable]
@@ -308,6 +310,32 @@ def c01_adjacent_mixed_kinds(k1: int, p1: int, l1: int, k2: int, p2: int, l2: in
     post: _ >= 0
     """
     return _check(11, [_spec(k1, p1, l1, 11), _spec(k2, p2, l2, 11)], 0, adjacent_mode=1)
+
+
+_BA = ('non-coding transcript of 9..12 distinct letters; 1 indel (insertion of 1-2 nt or deletion of 1-3 nt) anchored on '
+       'nucleotide 2, the last one that is never altered (the code re-anchors it to the following base)')
+
+
+@cond('C01', bounds=_BA, encodes=ENC + ['moPepGen.seqvar.VariantRecord.VariantRecord.to_end_inclusion'], codes=CODES,
+      timeout=300)
+def c01_start_anchored_indel(n: int, ins: bool, ln: int) -> int:
+    """
+    pre: 9 <= n <= 12
+    pre: 1 <= ln <= 3
+    post: _ >= 0
+    """
+    return _check(concretize(n, 9, 12), [(1 if ins else 2, 2, concretize(ln, 1, 3))], 0, start_anchored=True)
+
+
+@cond('C02', bounds=_BA, encodes=ENC + ['moPepGen.seqvar.VariantRecord.VariantRecord.to_end_inclusion'], codes=CODES,
+      timeout=300)
+def c02_start_anchored_indel(n: int, ins: bool, ln: int) -> int:
+    """
+    pre: 9 <= n <= 12
+    pre: 1 <= ln <= 3
+    post: _ >= 0
+    """
+    return _check(concretize(n, 9, 12), [(1 if ins else 2, 2, concretize(ln, 1, 3))], 1, start_anchored=True)
 
 
 _B3 = ('non-coding transcript of 10 distinct letters; 3 SNVs at any positions 3..7 (same position = alternative '
